@@ -287,13 +287,37 @@ def par_6(ctx, rep):
                'the recovery flag influences %s: strict and recovering parses can diverge before the first error' % r[1])
     rep.ob('PAR-6', PY, 'Parser', 'reads of self._error_recovery', set(reads) >= want,
            'expected read sites missing: %s' % sorted(want - set(reads)))
-    # Parser.error_recovery: writes to _omit_dedent_list only behind the flag test
+    # the recovery-only state by role: the list attribute _recovery_tokenize pops from (indent levels whose DEDENT is to be
+    # swallowed) and the counter attribute it increments / decrements
+    rt0 = prog.func(PY, 'Parser._recovery_tokenize')
+    OMIT = COUNTER = None
+    for n in walk_own(rt0.node):
+        if isinstance(n, ast.Call) and is_method_call(n, 'pop') and not n.args:
+            recv = n.func.value
+            if isinstance(recv, ast.Name):
+                from ..model import reaching_values
+                vals = reaching_values(rt0.node, recv) or [a.value for a in walk_own(rt0.node) if isinstance(a, ast.Assign)
+                                                         and any(isinstance(t, ast.Name) and t.id == recv.id for t in a.targets)]
+                recv = vals[0] if vals else recv
+            if isinstance(recv, ast.Attribute) and norm(recv.value) == 'self':
+                OMIT = recv.attr
+        if isinstance(n, ast.AugAssign) and isinstance(n.target, ast.Attribute) and norm(n.target.value) == 'self' \
+                and isinstance(n.op, (ast.Add, ast.Sub)):
+            COUNTER = n.target.attr
+        if isinstance(n, ast.Assign) and len(n.targets) == 1 and isinstance(n.targets[0], ast.Attribute) \
+                and norm(n.targets[0].value) == 'self' and isinstance(n.value, ast.BinOp) \
+                and isinstance(n.value.op, (ast.Add, ast.Sub)) and COUNTER is None:
+            COUNTER = n.targets[0].attr
+    if OMIT is None:
+        raise AnalysisError('PAR-6: the list of omitted dedents (self.<attr>.pop() in _recovery_tokenize) was not found')
+    COUNTER = COUNTER or '_indent_counter'
+    # Parser.error_recovery: writes to the omit list only behind the flag test
     f = prog.func(PY, 'Parser.error_recovery')
     cfg = ctx.cfg(f)
     flag = lambda e: isinstance(e, ast.Attribute) and e.attr == '_error_recovery'
     for n in cfg.nodes:
         txt = ' '.join(norm(e) for e in node_exprs(n))
-        if '_omit_dedent_list' in txt and n.kind == 'stmt':
+        if OMIT in txt and n.kind == 'stmt':
             ok = only_via(cfg, n, flag, 'T')
             rep.ob('PAR-6', PY, f.qual, head(n.stmt), ok, 'recovery-only state touched in strict mode')
     # strict exit: the super().error_recovery call happens exactly under `not flag`
@@ -309,7 +333,7 @@ def par_6(ctx, rep):
     for g in prog.funcs.values():
         if g.mod.rel != PY or g.qual in ('Parser.error_recovery', 'Parser.__init__', 'Parser._recovery_tokenize'):
             continue
-        if any(isinstance(n, ast.Attribute) and n.attr in ('_omit_dedent_list', '_indent_counter') for n in ast.walk(g.node)):
+        if any(isinstance(n, ast.Attribute) and n.attr in (OMIT, COUNTER) for n in ast.walk(g.node)):
             rep.ob('PAR-6', PY, g.qual, 'use of recovery-only state', False, 'recovery-only state used outside the recovery path')
     # _recovery_tokenize is only entered under the flag
     p = prog.func(PY, 'Parser.parse')
@@ -322,9 +346,9 @@ def par_6(ctx, rep):
     yields = [n for n in rc.nodes if n.kind == 'stmt' and isinstance(n.ast, ast.Expr) and isinstance(n.ast.value, ast.Yield)]
     nexts = [n for n in rc.nodes if n.kind in ('next0', 'next')]
     body_entries = {s for n in nexts for s, lab in n.succ if lab == 'next'}
-    omit_aliases = {'self._omit_dedent_list'}
+    omit_aliases = {'self.' + OMIT}
     for n in walk_own(rt.node):
-        if isinstance(n, ast.Assign) and norm(n.value) == 'self._omit_dedent_list':
+        if isinstance(n, ast.Assign) and norm(n.value) == 'self.' + OMIT:
             omit_aliases |= {norm(t) for t in n.targets}
     def implies_nonempty(e):
         # e true  =>  the omit list is non-empty
